@@ -39,7 +39,7 @@ LEVEL_TEXT = ("Exploration: generated call histories (other database families, o
               "deleting single reset lines.")
 FLOORS = {"quick": 150, "thorough": 1500}
 SHARDS = {"quick": 8, "thorough": 16}
-BUDGET = {"quick": 100, "thorough": 800, "replay": 1}
+BUDGET = {"quick": 150, "thorough": 1200, "replay": 1}
 
 GLOBAL_SW = ["OutputStringOn", "LogStringOn", "DumpStringOn", "ErrorStringOn", "OutputFileOn", "LogFileOn", "DumpFileOn",
              "ErrorFileOn", "ErrorOn"]
